@@ -694,7 +694,9 @@ def describe_assignment_target(
                 # No known way to get here -- POP_TOP as sole insn is
                 # handled at the top of this function
                 stack.pop()
-            elif insn.opname in ("PRECALL", "CACHE"):
+            elif insn.opname in ("PRECALL", "CACHE", "PUSH_NULL"):
+                # PUSH_NULL precedes the load of a non-method, non-global
+                # callable on 3.11+ and has no counterpart in our stack
                 pass
             else:
                 raise ValueError(f"{insn.opname} in assignment target not supported")
